@@ -140,9 +140,27 @@ func (c RawConfiguration) handleCorrectableCall(ctx context.Context, corr *Corre
 	)
 
 	if state.data.ServerStream {
-		for _, n := range c {
-			defer n.channel.deleteRouter(state.md.MessageID)
-		}
+		// The servers may keep streaming replies after this call has ended. A receiver
+		// goroutine that is handing over such a reply holds the router lock and blocks
+		// once the reply channel is full, so keep draining the channel until every
+		// router has been deleted; otherwise the node's receiver (and everybody who
+		// needs the router lock) would be stuck forever.
+		defer func() {
+			deleted := make(chan struct{})
+			go func() {
+				for _, n := range c {
+					n.channel.deleteRouter(state.md.MessageID)
+				}
+				close(deleted)
+			}()
+			for {
+				select {
+				case <-state.replyChan:
+				case <-deleted:
+					return
+				}
+			}
+		}()
 	}
 
 	for {
